@@ -292,6 +292,9 @@ func c10Integrity(obj interface{}, domain []int, max int) (bad string) {
 	}()
 	v := reflect.ValueOf(obj)
 	km := v.MethodByName("Keys")
+	if (!km.IsValid() || km.Type().NumIn() != 0) && strings.HasSuffix(reflect.TypeOf(obj).String(), "Set") {
+		km = v.MethodByName("Values") // a set's values are its elements (IntSet has no Keys)
+	}
 	if !km.IsValid() || km.Type().NumIn() != 0 {
 		return ""
 	}
@@ -796,7 +799,7 @@ func c10WholeAfter(rc *RunCtx, res *simrt.Result) {
 			return got == output.(string), ns + strconv.Itoa(idx)
 		},
 	}
-	r := porcupine.CheckOperationsTimeout(model, ops, 20*time.Second)
+	r := checkLinearizable(model, ops, 20*time.Second)
 	if r == porcupine.Illegal {
 		var sb strings.Builder
 		for _, op := range d.Ops {
@@ -1047,7 +1050,7 @@ func c10LinAfter(rc *RunCtx, res *simrt.Result) {
 			return got == output.(string), ns
 		},
 	}
-	r := porcupine.CheckOperationsTimeout(model, ops, 20*time.Second)
+	r := checkLinearizable(model, ops, 20*time.Second)
 	if r == porcupine.Illegal {
 		var sb strings.Builder
 		for _, op := range d.Ops {
